@@ -118,7 +118,7 @@ package kvcache
 //@ spec func fnsat(f int, v int) bool
 //@ extern func slices.DeleteFunc
 //@   modifies s[all]
-//@   ensures len(result) <= len(s)
+//@   ensures len(result) <= len(s) && result == s[0:len(result)]
 //@   ensures forall v int :: inseq(result, v) <==> (old(inseq(s, v)) && !fnsat(del, v))
 //@ extern func slices.ContainsFunc
 //@   modifies nothing
@@ -128,42 +128,23 @@ package kvcache
 //@   ensures result != nil
 
 //@ func (*Causal).Remove
-//@   requires len(c.cells) <= 2147483648 && !fresh(c.cells)
+//@   requires len(c.cells) <= 2147483648 && !fresh(c.cells) && c.cellRanges != nil
 //@   requires forall j int :: 0 <= j && j < len(c.cells) ==> !fresh(c.cells[j].sequences)
+//@   requires 0 <= beginIndex && beginIndex <= endIndex
+//@   requires forall i int, j int, a int, b int :: 0 <= i && i < j && j < len(c.cells) ==> c.cells[i].sequences == nil || &c.cells[i].sequences[a] != &c.cells[j].sequences[b]
 //@   assume-at call slices.DeleteFunc #1 : forall v int :: fnsat(arg1, v) <==> v == seq
 //@   assume-at call slices.ContainsFunc #1 : forall v int :: fnsat(arg1, v) <==> v != seq
-//@   loop 1 invariant seqRange.min == 9223372036854775807 || (0 <= seqRange.min && seqRange.min <= seqRange.max && seqRange.max <= rangeindex)
-
-//@ extern func log/slog.Debug
-//@   modifies nothing
-//@ extern func ml.(Context).MaxGraphNodes
-//@   modifies nothing
-
-// moveCells (trusted: View/Copy row semantics of the backend, assumption A-rows): copies
-// the K/V rows [src, src+length) to [dst, dst+length) in order. c.ghost_dat[j] is the
-// identity of the row stored at location j.
-//@ extern func (*Causal).moveCells
-//@   requires 0 <= src && 0 <= dst && 0 <= length && dst + length <= src && src + length <= len(c.cells)
-//@   modifies c.ghost_dat[all]
-//@   ensures forall j int :: dst <= j && j < dst + length ==> c.ghost_dat[j] == old(c.ghost_dat[j-dst+src])
-//@   ensures forall j int :: j < dst || dst + length <= j ==> c.ghost_dat[j] == old(c.ghost_dat[j])
-
-// defrag: loops 1 (count layers), 2 (dst ascending), 3 (src descending), 4 (sequences), 5 (cells)
-//@ func (*Causal).defrag
-//@   requires len(c.cells) <= 2147483648 && !fresh(c.cells)
-//@   requires forall j int :: 0 <= j && j < len(c.cells) ==> !fresh(c.cells[j].sequences)
-//@   requires forall j int :: c.ghost_dat[j] == j
-//@   ensures forall j int, g int :: 0 <= j && j < len(c.cells) && g == c.ghost_dat[j] && len(c.cells[j].sequences) != 0 ==> 0 <= g && g < len(c.cells) && c.cells[j].pos == old(c.cells[g].pos) && c.cells[j].sequences == old(c.cells[g].sequences)
-//@   loop 2 invariant 0 <= dst && -1 <= src && src < len(c.cells) && dst <= src + 1 && 0 <= pendingLen
-//@   loop 2 invariant pendingLen > 0 ==> 0 <= pendingDst && pendingDst + pendingLen <= dst && pendingDst + pendingLen <= src && src <= pendingSrc && pendingSrc + pendingLen <= len(c.cells)
-//@   loop 2 invariant forall j int :: pendingLen == 0 || j >= pendingDst ==> c.ghost_dat[j] == j
-//@   loop 2 invariant forall j int, g int :: 0 <= j && j < dst && (pendingLen == 0 || j < pendingDst || j >= pendingDst + pendingLen) && g == c.ghost_dat[j] && len(c.cells[j].sequences) != 0 ==> 0 <= g && g < len(c.cells) && c.cells[j].pos == old(c.cells[g].pos) && c.cells[j].sequences == old(c.cells[g].sequences)
-//@   loop 2 invariant forall j int :: dst <= j && j <= src ==> (j == src && len(c.cells[j].sequences) == 0) || (c.cells[j].pos == old(c.cells[j].pos) && c.cells[j].sequences == old(c.cells[j].sequences))
-//@   loop 2 invariant forall j int :: pendingDst <= j && j < pendingDst + pendingLen ==> len(c.cells[j].sequences) != 0 && c.cells[j].pos == old(c.cells[j-pendingDst+pendingSrc].pos) && c.cells[j].sequences == old(c.cells[j-pendingDst+pendingSrc].sequences)
-//@   loop 2 invariant forall j int :: src < j && j < len(c.cells) ==> len(c.cells[j].sequences) == 0
-//@   loop 3 invariant dst <= src && src < len(c.cells) && (pendingLen > 0 ==> src <= pendingSrc)
-//@   loop 3 invariant forall j int :: src < j && j < len(c.cells) ==> len(c.cells[j].sequences) == 0
-//@   assert-at call Close #2 : forall j int, g int :: 0 <= j && j < len(c.cells) && g == c.ghost_dat[j] && len(c.cells[j].sequences) != 0 ==> 0 <= g && g < len(c.cells) && c.cells[j].pos == old(c.cells[g].pos) && c.cells[j].sequences == old(c.cells[g].sequences)
-//@   loop 4 invariant forall j int, g int :: 0 <= j && j < len(c.cells) && g == c.ghost_dat[j] && len(c.cells[j].sequences) != 0 ==> 0 <= g && g < len(c.cells) && c.cells[j].pos == old(c.cells[g].pos) && c.cells[j].sequences == old(c.cells[g].sequences)
-//@   loop 5 invariant forall j int, g int :: 0 <= j && j < len(c.cells) && g == c.ghost_dat[j] && len(c.cells[j].sequences) != 0 ==> 0 <= g && g < len(c.cells) && c.cells[j].pos == old(c.cells[g].pos) && c.cells[j].sequences == old(c.cells[g].sequences)
-//@   loop 3 invariant forall j int :: dst <= j && j <= src ==> (j == src && len(c.cells[j].sequences) == 0) || (c.cells[j].pos == old(c.cells[j].pos) && c.cells[j].sequences == old(c.cells[j].sequences))
+//@   ensures result == nil ==> forall j int :: 0 <= j && j < len(c.cells) ==> (inseq(c.cells[j].sequences, seq) <==> old(inseq(c.cells[j].sequences, seq)) && !(beginIndex <= old(c.cells[j].pos) && old(c.cells[j].pos) < endIndex))
+//@   ensures forall j int, v int :: 0 <= j && j < len(c.cells) && v != seq ==> (inseq(c.cells[j].sequences, v) <==> old(inseq(c.cells[j].sequences, v)))
+//@   ensures result == nil ==> forall j int :: 0 <= j && j < len(c.cells) ==> c.cells[j].pos == ite(old(inseq(c.cells[j].sequences, seq)) && old(c.cells[j].pos) >= endIndex, old(c.cells[j].pos) + ite(endIndex != 2147483647, beginIndex - endIndex, 0), old(c.cells[j].pos))
+//@   ensures forall j int, v int :: 0 <= j && j < len(c.cells) && v != seq && old(inseq(c.cells[j].sequences, v)) ==> c.cells[j].pos == old(c.cells[j].pos)
+//@   ensures forall v int :: v != seq ==> (has(c.cellRanges, v) <==> old(has(c.cellRanges, v))) && c.cellRanges[v].min == old(c.cellRanges[v].min) && c.cellRanges[v].max == old(c.cellRanges[v].max)
+//@   loop 1 invariant (seqRange.min == 9223372036854775807 && seqRange.max == 0) || (0 <= seqRange.min && seqRange.min <= seqRange.max && seqRange.max <= rangeindex)
+//@   loop 1 invariant forall j int :: rangeindex < j && j < len(c.cells) ==> c.cells[j].pos == old(c.cells[j].pos) && c.cells[j].sequences == old(c.cells[j].sequences)
+//@   loop 1 invariant forall j int, v int :: rangeindex < j && j < len(c.cells) ==> (inseq(c.cells[j].sequences, v) <==> old(inseq(c.cells[j].sequences, v)))
+//@   loop 1 invariant forall j int :: 0 <= j && j <= rangeindex ==> (inseq(c.cells[j].sequences, seq) <==> old(inseq(c.cells[j].sequences, seq)) && !(beginIndex <= old(c.cells[j].pos) && old(c.cells[j].pos) < endIndex))
+//@   loop 1 invariant forall j int, v int :: 0 <= j && j <= rangeindex && v != seq ==> (inseq(c.cells[j].sequences, v) <==> old(inseq(c.cells[j].sequences, v)))
+//@   loop 1 invariant forall j int :: 0 <= j && j <= rangeindex ==> c.cells[j].pos == ite(old(inseq(c.cells[j].sequences, seq)) && old(c.cells[j].pos) >= endIndex, old(c.cells[j].pos) + offset, old(c.cells[j].pos))
+//@   loop 1 invariant forall j int, v int :: 0 <= j && j <= rangeindex && v != seq && old(inseq(c.cells[j].sequences, v)) ==> c.cells[j].pos == old(c.cells[j].pos)
+//@   loop 1 invariant forall j int :: 0 <= j && j <= rangeindex && inseq(c.cells[j].sequences, seq) ==> seqRange.min <= j && j <= seqRange.max
+//@   loop 1 invariant forall j int :: 0 <= j && j < len(c.cells) ==> !fresh(c.cells[j].sequences)
